@@ -827,11 +827,36 @@ func (a *Act) loopMods(li *loopInfo) []string {
 			a.g.instrMods(a, ins, set, 0)
 		}
 	}
-	if a.spec != nil {
-		// ghost updates anchored anywhere in the function may execute inside this loop
-		for _, an := range a.spec.Anchors {
-			for _, gu := range an.Ghost {
-				a.g.modTargets(a, gu.Target, set)
+	if a.spec != nil && len(a.spec.Anchors) > 0 {
+		// ghost updates anchored at a call / send / receive inside this loop
+		for b := range li.body {
+			for _, ins := range b.Instrs {
+				nm := ""
+				switch x := ins.(type) {
+				case *ssa.Call:
+					nm = callName(&x.Call)
+				case *ssa.Defer:
+					nm = callName(&x.Call)
+				case *ssa.Go:
+					nm = callName(&x.Call)
+				case *ssa.Send:
+					nm = "send"
+				case *ssa.UnOp:
+					if x.Op == token.ARROW {
+						nm = "recv"
+					}
+				}
+				if nm == "" {
+					continue
+				}
+				n := a.ordinalOf(ins, nm)
+				for _, an := range a.spec.Anchors {
+					if an.Callee == nm && an.Nth == n {
+						for _, gu := range an.Ghost {
+							a.g.modTargets(a, gu.Target, set)
+						}
+					}
+				}
 			}
 		}
 	}
